@@ -221,7 +221,7 @@ class Generator:
         cfg = {
             'kind': spec.get('kind') or ('footer' if impl == 'footer' else ('vec' if impl == 'vec' else impl)),
             'drain_drop': spec.get('drain_drop'),
-            'cb': spec.get('cb'), 'splice_drop': spec.get('splice_drop'), 'dfilter': spec.get('dfilter'),
+            'cand': spec.get('cand'), 'cb': spec.get('cb'), 'splice_drop': spec.get('splice_drop'), 'dfilter': spec.get('dfilter'),
             'trait_grow': spec.get('trait_grow'),
             'wbase': spec.get('wbase'), 'wsize': spec.get('wsize'), 'outer': spec.get('src', spec['name']),
             'guard': spec.get('guard'),
